@@ -364,7 +364,7 @@ def run_state_machine(subs: Sequence[Sequence[Any]], outcomes: Sequence[bool]) -
     for i, sub in enumerate(subs):
         if len(sub) > 0:
             case_of.setdefault(sub[0].label, i)
-    state: Any = subs[0][0].label if len(subs[0]) > 0 else 0
+    state: Any = 0  # `state_ = 0;` in Start() of the iterators in cpp/lib/_generate_iteration.py
     steps = 0
     seen: set = set()  # positions executed since the last consumed outcome (a repeat = spinning)
     while True:  # switch (state)
@@ -1142,7 +1142,7 @@ def cpp_check(ctx: Ctx, cases: List[Case], only: Optional[Sequence[str]] = None)
     funcs: List[str] = []
     compiled: List[Case] = []
     jobs: List[str] = []
-    expect: List[Tuple[Case, str, str, str]] = []  # case, oracle, predicted from machine, from structured
+    expect: List[Tuple[Case, str, str, List[str]]] = []  # case, oracle, predicted from machine, acceptable logs from structured
     for k, c in enumerate(cases):
         objs = build_seq(c.flow, cmd=lambda n: f"EMIT({n});", cond=lambda n: f"COND({n})")
         try:
@@ -1167,7 +1167,11 @@ def cpp_check(ctx: Ctx, cases: List[Case], only: Optional[Sequence[str]] = None)
             jobs.append(f'{{exec_{k}, "{c.oracles[i]}", {calls}}},')
             kind = last_kind(c.flow)
             ws = want[1] if (want[1] != "E" or kind in ("cmd", "empty")) else "!invalidState"
-            expect.append((c, c.oracles[i], _cpp_expect(got[0], got[1], len(c.flow) == 0), _cpp_expect(want[0], ws, len(c.flow) == 0)))
+            ok_logs = [_cpp_expect(want[0], ws, len(c.flow) == 0)]
+            if ws != want[1]:
+                # same leniency as clause (b): a clean return at the end instead of the throw keeps the property
+                ok_logs.append(_cpp_expect(want[0], want[1], len(c.flow) == 0))
+            expect.append((c, c.oracles[i], _cpp_expect(got[0], got[1], len(c.flow) == 0), ok_logs))
     if not jobs:
         return
     d = ctx.scratch()
@@ -1205,7 +1209,7 @@ def cpp_check(ctx: Ctx, cases: List[Case], only: Optional[Sequence[str]] = None)
         inp = {"flow": c.wire, "oracles": [o]}
         if got != from_machine:
             ctx.disagree("cpp-vs-interpreter", inp, got, from_machine)
-        if got != from_structured:
-            ctx.fail(inp, f"compiled C++ state machine logs {got!r}, the structured flow predicts {from_structured!r}",
+        if got not in from_structured:
+            ctx.fail(inp, f"compiled C++ state machine logs {got!r}, the structured flow predicts {from_structured[0]!r}",
                      f"C26:cpp:trace:last={last_kind(c.flow)}")
     ctx.extra_cov["cpp_compiled"] = {"flows": len(funcs), "traces": len(expect)}
